@@ -44,6 +44,10 @@ CHECKS["C15"] = dict(engine=E3, cat="other", design="DESIGN.md §4 C15",
     technique="CrossHair (z3) symbolic execution of _assemble_objects lifted from cencoding.pyx (drift-guarded against the generated C) vs a Dremel reference; counterexamples replayed on the compiled function",
     text="Record assembly for 3-level LIST columns: the real _assemble_objects (lifted from the .pyx each run) is executed page by page over all valid definition/repetition level streams of the bounded length and every page split position, for optional/required list x optional/required element, and must equal standard record assembly.",
     note="Bounded: streams of 3 (thorough 4) level entries, 1-2 page splits. Trusts the mechanical lift (types stripped, integer wrap, index obligations) - tied to the compiled code by the quoted-line drift guard and by replaying every counterexample on the compiled function. MAP zipping and dictionary dereference (numpy) outside.")
+CHECKS["C10"] = dict(engine="E3-pyxlift+E1-llsym", cat="other", design="DESIGN.md §4 C10",
+    technique="CrossHair (z3) over to_bytes/write_thrift/write_list lifted from cencoding.pyx with bounds obligations (lengths symbolic) + LLVM-IR/z3 check of the varint/zigzag kernels; witnesses confirmed under ASan",
+    text="Size safety: for every combination of string/bytes lengths (0..8 MB) in a FileMetaData / Statistics structure, each unchecked memcpy of the serialiser stays inside the buffer chosen by the sizing heuristic and no checked write is dropped - or the solver returns lengths that are replayed on an ASan build. Integers: ULEB128/zigzag encode and decode agree with the specification over the full 64-bit range.",
+    note="Reduced claim so far: capacity (T4) and integer codec (T1). Structure round trip / IDL conformance (T2/T3) are added by vf.props.thrift_struct when present. The lift is tied to the compiled code by the quoted-line drift guard and by replay.")
 NA = {
     "C17": "dtype/categorical/index prediction vs what pandas allocates: no symbolic model of pandas' allocation is within reach and prediction and allocation share one function; row counts are decided under C06",
     "C20": "quantifies over CPython thread schedules of code running in pandas/numpy/C extensions; CrossHair executes one thread and no engine here gives a semantics for interleaved bytecode; a hand-written interleaving model would not be the real code",
